@@ -445,7 +445,7 @@ Definition columns_sizes (items : col_items) (fp dc mw : Z) (s : size) : list (Z
       let flow_heights :=
         flat_map (fun p : Z * (copt * bool * cinfo) => let '(width, (_, isbox, ci)) := p in
                    if isbox then [] else [if 0 <? width then i_rows ci width else 0]) zipped in
-      let max_height := match flow_heights with [] => 1 | _ => zmaxl flow_heights end in
+      let max_height := Z.max 1 (zmaxl flow_heights) in       (* max(1, *heights.values()); 1 without heights *)
       map (fun p : Z * (copt * bool * cinfo) => let '(width, (_, isbox, ci)) := p in
              if isbox then (width, max_height, (width, Some max_height))
              else (width, (if 0 <? width then i_rows ci width else 0), (width, None))) zipped
